@@ -577,6 +577,119 @@ def rule_r3(chk, prog):
               'order', loc=sm.loc(gv), nontrivial=True)
 
 
+def _lin_minmax(e, env):
+    """Value of an integer expression over the symbols in ``env`` as a
+    linear form {sym: coef, 1: const}; min()/max() are decided when the
+    difference of their operands has a definite sign for all d >= 0."""
+    if isinstance(e, ast.Constant) and isinstance(
+            e.value, int) and not isinstance(e.value, bool):
+        return {1: e.value}
+    t = unparse(e)
+    if t in env:
+        return dict(env[t])
+    if isinstance(e, ast.BinOp) and isinstance(e.op, (ast.Add, ast.Sub)):
+        a, b = _lin_minmax(e.left, env), _lin_minmax(e.right, env)
+        sg = 1 if isinstance(e.op, ast.Add) else -1
+        r = dict(a)
+        for k, v in b.items():
+            r[k] = r.get(k, 0) + sg * v
+        return r
+    if isinstance(e, ast.Call) and call_name(e) in ('min', 'max') and len(
+            e.args) == 2 and not e.keywords:
+        a, b = _lin_minmax(e.args[0], env), _lin_minmax(e.args[1], env)
+        diff = dict(a)
+        for k, v in b.items():
+            diff[k] = diff.get(k, 0) - v
+        diff = {k: v for k, v in diff.items() if v != 0}
+        # sign of a - b for every d >= 0 (only "d" and the constant may
+        # remain)
+        if set(diff) <= {1, 'd'}:
+            c0, cd = diff.get(1, 0), diff.get('d', 0)
+            if c0 >= 0 and cd >= 0:
+                ge = True
+            elif c0 <= 0 and cd <= 0:
+                ge = False
+            else:
+                raise AnalysisError(f'cannot order the operands of {t}')
+            small, big = (b, a) if ge else (a, b)
+            return small if call_name(e) == 'min' else big
+        raise AnalysisError(f'cannot order the operands of {t}')
+    raise AnalysisError(f'"{t}" is not a linear expression over the resume '
+                        'position and the task index')
+
+
+def rule_r3_resume(chk, prog):
+    """Hierarchical strategy, one worker: the tasks the pool had already
+    queued when a success was adopted come back afterwards and are
+    discarded.  How many there are depends on how far the pool's feeder
+    thread ran ahead - pure timing.  The position at which the next sweep
+    resumes must therefore not be moved by them."""
+    hm = prog.mod('strategy_hierarchical')
+    f = hm.func('reduce')
+    where = 'strategy_hierarchical.reduce'
+    # the resume counter: first argument of <producer>.generate(...)
+    gen = [c for c in calls_in(f) if isinstance(c.func, ast.Attribute)
+           and c.func.attr == 'generate' and c.args
+           and isinstance(c.args[0], ast.Name)]
+    if len(gen) != 1:
+        raise AnalysisError('C18.R3: the call <producer>.generate(skip, ...) '
+                            'was not found in reduce')
+    skip = gen[0].args[0].id
+    loop = None
+    p_ = getattr(gen[0], '_parent', None)
+    while p_ is not None and p_ is not f:
+        if isinstance(p_, ast.For):
+            loop = p_
+            break
+        p_ = getattr(p_, '_parent', None)
+    if loop is None or not isinstance(loop.target, ast.Name):
+        raise AnalysisError('C18.R3: the loop over the pool results was not '
+                            'found')
+    # the task variable: unpacked from the result
+    taskv = None
+    for st in walk_no_nested(loop):
+        if isinstance(st, ast.Assign) and isinstance(
+                st.targets[0], ast.Tuple) and len(
+                    st.targets[0].elts) == 2 and 'loads' in unparse(st.value):
+            taskv = st.targets[0].elts[1].id
+    if taskv is None:
+        raise AnalysisError('C18.R3: "success, task = pickle.loads(result)" '
+                            'not found')
+    n = 0
+    for st in walk_no_nested(loop):
+        if not (isinstance(st, ast.Assign) and any(
+                isinstance(t, ast.Name) and t.id == skip
+                for t in st.targets)):
+            continue
+        facts = facts_at(f, st)
+        stale = any(t.endswith('.is_set()') and pol for (t, pol) in facts)
+        if not stale:
+            continue
+        n += 1
+        # a discarded task comes after the adopted one: its index is at
+        # least skip + 2 (skip = index of the adopted task - 1)
+        env = {skip: {'s': 1},
+               f'{taskv}.nodeid': {'s': 1, 1: 2, 'd': 1}}
+        new = _lin_minmax(st.value, env)
+        new = {k: v for k, v in new.items() if v != 0}
+        ok = new == {'s': 1}
+        shown = ' + '.join(
+            (f'{v}*{k}' if k != 1 else str(v)) for k, v in new.items()
+        ).replace('1*s', skip).replace('*d', '*(distance)')
+        chk.check('C18.R3', where, st, ok,
+                  f'a result that is discarded after a success moves the '
+                  f'resume position: for a task behind the adopted one '
+                  f'"{unparse(st.value)}" is {shown}, not {skip}. With one '
+                  'worker the number of such results is the number of tasks '
+                  'the pool had queued ahead - it depends on thread timing, '
+                  'so two runs resume at different nodes and accept '
+                  'different simplifications', loc=hm.loc(st),
+                  nontrivial=True)
+    chk.instance('C18.R3', where, f'{n} update(s) of "{skip}" on the '
+                 'discard path examined', True,
+                 'no-ops for tasks behind the adopted one', nontrivial=True)
+
+
 def rule_r4(chk, prog):
     chk.rule('C18.R4', 'node identities and hashes do not leak into text or '
              'sort keys (the fresh-variable name x<id>__fresh is a '
@@ -727,6 +840,7 @@ def run(tier):
     chk.guard(rule_r1_calls, chk, prog)
     chk.guard(rule_r2, chk, prog)
     chk.guard(rule_r3, chk, prog)
+    chk.guard(rule_r3_resume, chk, prog)
     chk.guard(rule_r4, chk, prog)
     chk.guard(rule_r5, chk, prog)
     extra = None
